@@ -22,8 +22,13 @@ Lemma vcmp_antisym a b : vcmp b a = CompOpp (vcmp a b).
 Proof. unfold vcmp, Pep440.compare. apply lex_antisym. Qed.
 Ltac csem := unfold clause_sem; cbn [c_op c_ver]; rewrite ?pvleb, ?pvltb, ?pveqb.
 Definition final (v : version) : Prop := pre v = None /\ post v = None /\ dev v = None.
+(* what packaging guarantees about a tokenised clause: `~=` has at least two release segments; a wildcard has a release *)
 Definition wf_clause (c : clause) : Prop :=
-  release (c_ver c) <> [] /\ match c_op c with OpCompat => (2 <= length (release (c_ver c)))%nat | _ => True end.
+  match c_op c with
+  | OpCompat => (2 <= length (release (c_ver c)))%nat
+  | OpEqStar | OpNeStar => release (c_ver c) <> []
+  | _ => True
+  end.
 
 Lemma final_eta v : final v -> v = relver (epoch v) (release v).
 Proof. destruct v as [e r p po d]. intros (H1 & H2 & H3). cbn in *. subst. reflexivity. Qed.
@@ -153,7 +158,7 @@ Proof. split; [apply lt_posinf | split; cbn; congruence]. Qed.
 Theorem from_pkg_spec c : wf_clause c ->
   exists s, from_pkg c = Ret s /\ canon s /\ simp_ok s /\ forall v, final v -> mem (vcut v) s = clause_sem c v.
 Proof.
-  intros W. pose proof W as [Hrel Hop]. destruct c as [op V]. cbn [c_op c_ver] in *.
+  intros W. destruct c as [op V]. pose proof W as Hrel. pose proof W as Hop. unfold wf_clause in Hrel, Hop. cbn [c_op c_ver] in *.
   destruct op; unfold from_pkg; cbn [c_op c_ver].
   - (* >= *) eexists. split; [reflexivity|]. split; [split; [apply lt_posinf | split; cbn; congruence]|]. split; [split; [exact W|reflexivity]|].
     intros v _. cbn [mem]. rewrite memr_vcut. csem. cbn. rewrite andb_true_r. reflexivity.
